@@ -67,8 +67,16 @@ func newStoreDriver(out string) (*storeDriver, error) {
 	})
 	for i := 1; i <= 4; i++ {
 		tok, _ := mintID(tokenSpec{Class: "good", Sub: "u", Aud: "c", Exp: baseTime.Unix() + 1_000_000, Iat: baseTime.Unix(), Jti: fmt.Sprintf("tok-%d", i), Variant: i})
-		d.toks = append(d.toks, &oidc.TokenResponse{IDToken: tok, AccessToken: fmt.Sprintf("at-%d", i), RefreshToken: fmt.Sprintf("rt-%d", i),
-			AccessTokenExpiresAt: baseTime.Add(time.Duration(1000+i) * time.Second)})
+		tr := &oidc.TokenResponse{IDToken: tok, AccessToken: fmt.Sprintf("at-%d", i), RefreshToken: fmt.Sprintf("rt-%d", i),
+			AccessTokenExpiresAt: baseTime.Add(time.Duration(1000+i) * time.Second)}
+		// the values differ in which optional members they carry, so that a member of an earlier write that survives an overwrite shows
+		switch i {
+		case 2:
+			tr.AccessTokenExpiresAt, tr.RefreshToken = time.Time{}, "" // access token without expiry, no refresh token
+		case 3:
+			tr.AccessToken, tr.AccessTokenExpiresAt = "", time.Time{} // ID and refresh token only
+		}
+		d.toks = append(d.toks, tr)
 		d.auths = append(d.auths, &oidc.AuthorizationState{State: fmt.Sprintf("state-%d", i), Nonce: fmt.Sprintf("nonce-%d", i),
 			RequestedURL: fmt.Sprintf("https://app.test/u%d", i), CodeVerifier: fmt.Sprintf("verifier-%d", i)})
 	}
